@@ -53,6 +53,13 @@ def smtp_scripts(nrcpt, lmtp, rnd, quick):
     out.append({'ehlo': 500, 'helo': 250, 'data': 'disconnect'})
     out.append({'ehlo': 500, 'helo': 250})
     out.append({'ehlo': 500, 'helo': 550})
+    # the HELO fallback: after "500" to EHLO the answer to HELO is the one that counts
+    for h in (450, 451, 421, 554, 'disconnect', 'malformed', 'stall'):
+        out.append({'ehlo': 500, 'helo': h})
+    out.append({'ehlo': 500, 'helo': 250, 'rcpt': [450] * nrcpt})
+    out.append({'ehlo': 500, 'helo': 250, 'mail': 550})
+    for e in (501, 502, 550, 421, 450):          # other refusals of EHLO do not make the client fall back
+        out.append({'ehlo': e})
     return out
 
 
